@@ -463,6 +463,11 @@ def _layout_history(rnd, pk, dup_keys=False):
             b = rnd.choice([None, 0, 1, 2, 3])
             c = rnd.choice([None, "", "a", "b", "ab"])
             batch.append([a if pk else rnd.choice([None] + keys), b, c])
+        if dup_keys and rnd.random() < 0.6:
+            # one key many times: several blocks of the row-set begin with the same key
+            hk = rnd.choice(keys)
+            batch += [[hk, rnd.choice([None, 0, 1, 2, 3]), rnd.choice([None, "", "a", "b"])] for _ in range(rnd.choice([14, 25, 40]))]
+            rnd.shuffle(batch)
         rows += batch
         steps.append({"sql": "insert into t1 values " + ", ".join(
             "(" + ", ".join(G.lit(v) for v in r) + ")" for r in batch)})
@@ -546,7 +551,10 @@ def range_query(rnd, rows, pkcol="a"):
     key = ("col", "x1", pkcol, G.INT)
     kpos = 0 if pkcol == "a" else 1
     present = sorted({r[kpos] for r in rows if r[kpos] is not None}) or [0]
+    allkeys = [r[kpos] for r in rows if r[kpos] is not None] or [0]
     def bound():
+        if rnd.random() < 0.5:
+            return ("ci", rnd.choice(allkeys))          # weighted by frequency: keys with many duplicates
         return ("ci", rnd.choice(present + [min(present) - 1, max(present) + 1, rnd.choice(range(0, 15))]))
     k = rnd.random()
     if k < 0.6:
